@@ -252,3 +252,61 @@ pub fn layout_arith() {
 }
 #[cfg(futures_buffered_verif_model)]
 pub fn layout_arith() {}
+
+/// The REAL stack end to end (real waker_list + cordyceps + diatomic-waker + spin
+/// under the real `FuturesUnorderedBounded`), memory-safety checks on:
+/// new(1); push; one poll_next with a symbolic child answer (ready / pending /
+/// pending + self-wake) and a symbolic task waker; [second poll]; drop.
+pub fn real_stack(polls: usize) {
+    use crate::child::Fut;
+    use core::pin::Pin;
+    use core::task::{Context, Poll};
+    use futures_buffered::FuturesUnorderedBounded;
+    use futures_core::Stream;
+    gh::reset();
+    let gh = g();
+    gh.selfwake_left = 1;
+    let (a0, f0) = blocks();
+    let mut f: FuturesUnorderedBounded<Fut> = FuturesUnorderedBounded::new(1);
+    f.push(Fut::new(0));
+    gh.slot_of[0] = 0;
+    gh.set_needs(0, 0, true);
+    let mut k = 0;
+    let mut yielded = false;
+    while k < polls {
+        let t = nd::below(2) as usize;
+        let w = gh::task_waker(t);
+        let before = gh.task_wakes[t];
+        let polls_before = gh.polls[0];
+        let wakes_before = gh.child_wakes;
+        let mut cx = Context::from_waker(&w);
+        let r = Pin::new(&mut f).poll_next(&mut cx);
+        match r {
+            Poll::Ready(Some(x)) => {
+                vassert!(x == 0 && gh.done[0] && !yielded, "C02:yielded an item no held future produced (or twice)");
+                vassert!(gh.drops[0] == 1, "C05:finished future not dropped when its output is handed out");
+                yielded = true;
+            }
+            Poll::Ready(None) => vassert!(yielded, "C02:Ready(None) while a future is held"),
+            Poll::Pending => {
+                vassert!(!yielded, "C02:Pending although nothing is held");
+                // self-wake during the poll => the task waker of THIS poll was invoked
+                if gh.needs(0, 0) {
+                    vassert!(gh.task_wakes[t] > before, "C01:child woke itself during the poll and was not polled again, task not woken");
+                }
+                if gh.child_wakes == wakes_before {
+                    vassert!(gh.task_wakes[t] == before, "C14:task woken although no child waker was invoked");
+                }
+                vassert!(gh.polls[0] <= polls_before + 2, "C12:child polled more often than it was notified");
+            }
+        }
+        core::mem::forget(w);
+        k += 1;
+    }
+    vassert!(blocks() == (a0 + 1, f0), "C03:shared block released while the collection lives");
+    drop(f);
+    vassert!(blocks() == (a0 + 1, f0 + 1), "C03:shared block not released exactly once");
+    vassert!(yielded || gh.drops[0] == 1, "C06:held future not dropped with the collection");
+    vcover!(yielded, "cover:yielded");
+    vcover!(!yielded, "cover:not_yielded");
+}
